@@ -31,8 +31,8 @@ import (
 
 func init() {
 	fw.Register(&fw.Check{
-		ID: "C08",
-		Rule: "cases: lifecycles create -> update* -> recover -> update* -> deactivate built (a) with the four request builders (patches or opaque document, both hash algorithms, optional anchor origin / type / anchoring window, all four operation key types) and (b) with the Sidetree client whose request function is replaced by a recorder (keys with 0..5 purposes of every document key type, JWK and base58 material, services with string / list / object endpoints and extra members, also-known-as, add/remove options). Every recorded request must be accepted by a parser with the matching protocol; applying the requests in order must give the document (harness patch model), commitments (reference formulas) and flags the caller asked for; GetAnchoredOperation of each parsed request must be the reference canonical bytes, keep suffix / type / anchor origin and apply to the same state. Builders must refuse reused keys, equal commitments and commitments of the wrong hash algorithm. distinct = (builder or client, operation sequence, key type, code, option set).",
+		ID:          "C08",
+		Rule:        "cases: lifecycles create -> update* -> recover -> update* -> deactivate built (a) with the four request builders (patches or opaque document, both hash algorithms, optional anchor origin / type / anchoring window, all four operation key types) and (b) with the Sidetree client whose request function is replaced by a recorder (keys with 0..5 purposes of every document key type, JWK and base58 material, services with string / list / object endpoints and extra members, also-known-as, add/remove options). Every recorded request must be accepted by a parser with the matching protocol; applying the requests in order must give the document (harness patch model), commitments (reference formulas) and flags the caller asked for; GetAnchoredOperation of each parsed request must be the reference canonical bytes, keep suffix / type / anchor origin and apply to the same state. Builders must refuse reused keys, equal commitments and commitments of the wrong hash algorithm. distinct = (builder or client, operation sequence, key type, code, option set).",
 		Assumptions: []string{"harness patch model, state machine and JCS / multihash oracle", "did-go / kms-go value types used to feed the client"},
 		Require:     []string{"builder-requests", "client-requests", "lifecycles-completed", "anchored-form", "builder-refusals"},
 		Workers:     func(string) int { return 15 },
